@@ -5,6 +5,7 @@ import (
 	"go/ast"
 	"go/constant"
 	"go/types"
+	"sort"
 
 	"verif/checker/core"
 )
@@ -214,33 +215,62 @@ func runR044(c *core.Ctx) {
 		c.Unknown(rel, "(*rootNode).ServeHTTP", "dispatch call", serve.Pos(), "ServeHTTP does not call receive")
 		return
 	}
-	for _, r := range core.ReturnsIn(serve.Body) {
-		if r.Pos() > recvPos.Pos() {
-			continue
-		}
-		list, idx := core.StmtListOf(par, r)
-		ok := false
-		why := "return before dispatch is not preceded by http.NotFound / http.Error(…, 4xx)"
-		if idx > 0 {
-			if es, isExpr := list[idx-1].(*ast.ExprStmt); isExpr {
-				if call, isCall := es.X.(*ast.CallExpr); isCall {
-					f := core.Callee(inf, call)
-					if core.IsFunc(f, "net/http", "NotFound") {
-						ok = true
-					}
-					if core.IsFunc(f, "net/http", "Error") && len(call.Args) == 3 {
-						if cv := core.ConstOf(inf, call.Args[2]); cv != nil {
-							if s, _ := constant.Int64Val(cv); s >= 400 && s < 500 {
-								ok = true
-							} else {
-								why = fmt.Sprintf("http.Error before dispatch uses status %d", s)
-							}
+	// a path property: on every path, a return that comes before the dispatch has answered with http.NotFound or
+	// http.Error(…, 4xx) since the function was entered (flags set by a spliced helper are followed by the flow engine)
+	_ = par
+	type verdict struct {
+		ok  bool
+		why string
+	}
+	rets := map[*ast.ReturnStmt]*verdict{}
+	wrongStatus := ""
+	core.NewFlow(c.M, inf, serve.Body).Run(&core.Automaton{
+		Node: func(st int, n ast.Node) int {
+			for _, call := range core.CallsIn(n) {
+				f := core.Callee(inf, call)
+				if f != nil && f.Origin() == recvFn {
+					st = 2
+				}
+				if st == 2 {
+					continue
+				}
+				if core.IsFunc(f, "net/http", "NotFound") {
+					st = 1
+				}
+				if core.IsFunc(f, "net/http", "Error") && len(call.Args) == 3 {
+					if cv := core.ConstOf(inf, call.Args[2]); cv != nil {
+						if code, _ := constant.Int64Val(cv); code >= 400 && code < 500 {
+							st = 1
+						} else {
+							wrongStatus = fmt.Sprintf("http.Error before dispatch uses status %d", code)
 						}
 					}
 				}
 			}
+			if r, ok := n.(*ast.ReturnStmt); ok && st != 2 {
+				v := rets[r]
+				if v == nil {
+					v = &verdict{ok: true}
+					rets[r] = v
+				}
+				if st == 0 {
+					v.ok = false
+				}
+			}
+			return st
+		},
+	})
+	var ordered []*ast.ReturnStmt
+	for r := range rets {
+		ordered = append(ordered, r)
+	}
+	sort.Slice(ordered, func(i, j int) bool { return ordered[i].Pos() < ordered[j].Pos() })
+	for _, r := range ordered {
+		why := "return before dispatch is not preceded by http.NotFound / http.Error(…, 4xx)"
+		if wrongStatus != "" {
+			why = wrongStatus
 		}
-		c.Check(ok, rel, "(*rootNode).ServeHTTP", fmt.Sprintf("pre-dispatch return #%d answers 4xx", ordinal(serve, r)), r.Pos(), "", why)
+		c.Check(rets[r].ok, rel, "(*rootNode).ServeHTTP", fmt.Sprintf("pre-dispatch return #%d answers 4xx", ordinal(serve, r)), r.Pos(), "", why)
 	}
 }
 
